@@ -99,6 +99,12 @@ type Evaluator struct {
 	prevCall  bool
 	invariant string
 	noHook    bool
+
+	progOf   *vm.VM   // the machine the fingerprint below was taken from
+	progMain string   // main bytecode
+	progFns  string   // functions, by name
+	progCons []string // constants, printed
+	progSkip bool
 }
 
 // Describe renders an engine object as "TYPE:printed".
@@ -255,7 +261,9 @@ func (ev *Evaluator) Exec(obj interface{}) (o Obs) {
 			o.Invariant = ev.invariant
 		}
 	}()
+	ev.programBefore()
 	res, err := ev.E.Execute(obj)
+	ev.programAfter()
 	o.Trace = ev.trace
 	o.Steps = ev.steps
 	o.Invariant = ev.invariant
@@ -288,7 +296,12 @@ func (ev *Evaluator) RunBool(obj interface{}) (b bool, err error, panicked bool,
 			msg = fmt.Sprint(r)
 		}
 	}()
+	ev.programBefore()
 	b, err = ev.E.Run(obj)
+	ev.programAfter()
+	if ev.invariant != "" && err == nil {
+		err = errors.New("INVARIANT-VIOLATED(" + ev.invariant + ")")
+	}
 	return
 }
 
@@ -582,6 +595,68 @@ func monitor() {
 				if h := OnHang; h != nil {
 					h(ev.Script, infos[i].api, infos[i].lastSteps, now.Sub(infos[i].lastChange))
 				}
+			}
+		}
+	}
+}
+
+// ---------------------------------------------------------------------------
+// Invariant: a run does not change the prepared program. Before a run the adapter takes a
+// fingerprint of the machine's main bytecode, function table and constant pool (anew
+// whenever Prepare has built another machine); after the run it must be the same.
+
+func (ev *Evaluator) programBefore() {
+	m := ev.E.VerifMachine()
+	if m == nil || m == ev.progOf {
+		return
+	}
+	ev.progOf = m
+	cons := m.VerifConstants()
+	ev.progSkip = len(cons) > 256 || len(m.VerifBytecode()) > 16384
+	if ev.progSkip {
+		return
+	}
+	ev.progMain, ev.progFns, ev.progCons = programPrint(m)
+}
+
+func programPrint(m *vm.VM) (string, string, []string) {
+	main := string(m.VerifBytecode())
+	fns := m.VerifFunctions()
+	names := make([]string, 0, len(fns))
+	for n := range fns {
+		names = append(names, n)
+	}
+	sort.Strings(names)
+	var fb strings.Builder
+	for _, n := range names {
+		fmt.Fprintf(&fb, "%s(%s)=%x;", n, strings.Join(fns[n].Arguments, ","), []byte(fns[n].Bytecode))
+	}
+	cons := m.VerifConstants()
+	cs := make([]string, len(cons))
+	for i, c := range cons {
+		cs[i] = Describe(c)
+	}
+	return main, fb.String(), cs
+}
+
+func (ev *Evaluator) programAfter() {
+	m := ev.E.VerifMachine()
+	if m == nil || m != ev.progOf || ev.progSkip || ev.invariant != "" {
+		return
+	}
+	main, fns, cons := programPrint(m)
+	switch {
+	case main != ev.progMain:
+		ev.invariant = "the main bytecode of the prepared program changed during a run"
+	case fns != ev.progFns:
+		ev.invariant = "the function table of the prepared program changed during a run"
+	case len(cons) != len(ev.progCons):
+		ev.invariant = fmt.Sprintf("the constant pool of the prepared program changed size during a run (%d -> %d)", len(ev.progCons), len(cons))
+	default:
+		for i := range cons {
+			if cons[i] != ev.progCons[i] {
+				ev.invariant = fmt.Sprintf("constant #%d of the prepared program changed during a run: %s -> %s", i, ev.progCons[i], cons[i])
+				break
 			}
 		}
 	}
